@@ -8,7 +8,5 @@ Row(t, r, p) ==
   LET new == SpliceText(t, r, p)  v == ToyValid(new)
   IN <<t, r, p, v, new, IF v THEN ToyParse(new).p ELSE <<>> >>
 Rows == UNION {{Row(t, r, p) : r \in RectsOf(t), p \in ToyRepls} : t \in ValidTexts}
-ASSUME LET T == Rows IN
-       /\ PrintT(<<"ROWS", Cardinality(T), Cardinality(ValidTexts), Cardinality(ToyRepls)>>)
-       /\ JsonSerialize(IOEnv.OUT_FILE, [rows |-> T])
+ASSUME JsonSerialize(IOEnv.OUT_FILE, [rows |-> Rows])
 =============================================================================
